@@ -13,7 +13,7 @@ fn nexts(rng: &mut Rng, n: usize) -> Vec<ScriptLine> {
 }
 
 fn rand_print_cmd(rng: &mut Rng) -> ScriptLine {
-    let what = match rng.below(6) {
+    let what = match rng.below(7) {
         0 => PrintWhat::Flags,
         1 => PrintWhat::Reg,
         2 => {
@@ -22,6 +22,10 @@ fn rand_print_cmd(rng: &mut Rng) -> ScriptLine {
         }
         3 => PrintWhat::Span(rng.below(0x5000) as u32, rng.below(36) as u32),
         4 => PrintWhat::DsSpan(rng.below(36) as u32),
+        5 => {
+            let a = 0xFFFFFu32 - rng.below(48) as u32;
+            match rng.below(3) { 0 => PrintWhat::Range(a, 0xFFFFF), 1 => PrintWhat::Span(a, 0xFFFFF - a + rng.below(2) as u32), _ => PrintWhat::Range(a, 0xFFFFF + 1 + rng.below(3) as u32) }
+        }
         _ => PrintWhat::Range(5 + rng.below(100) as u32, rng.below(5) as u32), // backwards
     };
     ScriptLine::print(what, rng.chance(1, 4))
@@ -50,10 +54,46 @@ pub fn rand_script(rng: &mut Rng, len: usize, end: u64) -> Vec<ScriptLine> {
     v
 }
 
-pub fn gen_driver(prop: &str, rng: &mut Rng, sh: &mut Shards, out: &str, thorough: bool) {
+fn items_from_json(v: &serde_json::Value) -> Vec<Item> {
+    v.as_array().unwrap().iter().map(|it| match it["k"].as_str().unwrap() {
+        "label" => Item::Label(it["name"].as_str().unwrap().to_string()),
+        "ins" => Item::Ins(crate::checks2::ins_from_json(&it["ast"])),
+        "proc" => Item::Proc { name: it["name"].as_str().unwrap().to_string(), body: items_from_json(&it["body"]) },
+        k => panic!("harness: item kind {}", k),
+    }).collect()
+}
+
+/// spec -> impl: programs (and prompt scripts) enumerated by TLC (MC_Driver generator configs)
+pub fn programs_from_tlc(path: &str, rng: &mut Rng) -> Vec<(Program, Layout)> {
+    let text = std::fs::read_to_string(path).expect("program file");
+    let mut v = Vec::new();
+    for line in text.lines() {
+        if line.trim().is_empty() {
+            continue;
+        }
+        let j: serde_json::Value = serde_json::from_str(line).expect("program json");
+        let stdin: Vec<ScriptLine> = j["stdin"].as_array().unwrap().iter().map(|s| {
+            let raw = s["raw"].as_str().unwrap().trim_end_matches('\n').to_string();
+            let cls: &'static str = match s["cls"].as_str().unwrap() { "next" => "next", "quit" => "quit", "print" => "print", _ => "garbage" };
+            let what = if cls == "print" { Some(PrintWhat::Flags) } else { None };
+            ScriptLine { raw, newline: true, cls, what }
+        }).collect();
+        let p = Program { data: Vec::new(), items: items_from_json(&j["items"]), interp: j["interp"].as_bool().unwrap(), stdin, note: "tlc".into() };
+        let lay = if rng.chance(1, 2) { Layout::plain() } else { Layout::random(rng) };
+        v.push((p, lay));
+    }
+    v
+}
+
+pub fn gen_driver(prop: &str, rng: &mut Rng, sh: &mut Shards, out: &str, thorough: bool, tlc_programs: Option<&str>) {
     let bin = bin_path();
     let dir = format!("{}/runs", out);
     let mut progs: Vec<(Program, Layout)> = Vec::new();
+    if let Some(path) = tlc_programs {
+        let v = programs_from_tlc(path, rng);
+        sh.count("tlc-programs", v.len() as u64);
+        progs.extend(v);
+    }
     let scale = if thorough { 10 } else { 1 };
     match prop {
         "C08" => {
@@ -87,6 +127,25 @@ pub fn gen_driver(prop: &str, rng: &mut Rng, sh: &mut Shards, out: &str, thoroug
                 k.int3 = true;
                 k.blocks = 6 + (i % 8);
                 let mut p = g.program(&k);
+                if i % 2 == 1 {
+                    // a data segment away from 0, memory written through it, DS-relative and top-of-memory prints
+                    let seg = *rng.pick(&[0x1000u16, 0x1234, 0x8000, 0xF000, 0xFFF0, 0xFFFE, 0xFFFF, 0x0FFF]);
+                    let pos = p.items.iter().position(|x| matches!(x, Item::Label(n) if n == "start")).unwrap() + 1;
+                    let rest = p.items.split_off(pos);
+                    p.items.push(Item::Ins(Ins::Mov { w: 16, dst: Opnd::Reg16("ax"), src: Opnd::Imm(seg as i32) }));
+                    p.items.push(Item::Ins(Ins::Mov { w: 16, dst: Opnd::Sreg("ds"), src: Opnd::Reg16("ax") }));
+                    for k2 in 0..4 {
+                        p.items.push(Item::Ins(Ins::Mov { w: 8, dst: Opnd::Mem { seg: "", base: "", index: "", disp: k2 * 5, has_disp: true }, src: Opnd::Imm(0xA0 + k2) }));
+                    }
+                    p.items.push(Item::Ins(Ins::Print { what: PrintWhat::DsSpan(*rng.pick(&[0u32, 3, 14, 15, 16, 17, 31, 40])) }));
+                    let top = 0xFFFFFu32;
+                    let a = top - rng.below(40) as u32;
+                    p.items.push(Item::Ins(Ins::Print { what: PrintWhat::Range(a, top) }));
+                    p.items.push(Item::Ins(Ins::Print { what: PrintWhat::Span(a, top - a) }));
+                    p.items.push(Item::Ins(Ins::Print { what: PrintWhat::Range(a, a - rng.below(3) as u32) }));
+                    p.items.push(Item::Ins(Ins::Int { n: 3 }));
+                    p.items.extend(rest);
+                }
                 // print commands typed at INT 3 prompts
                 let mut s = Vec::new();
                 for _ in 0..120 {
